@@ -303,7 +303,7 @@ W.contract(
     "vyxal/transpile.py::transpile#glue",
     params=dict(program=VAL, dict_compress=VAL, variables_as_digraphs=VAL), result=VAL,
     ensures=["result == r_transpile_ast(r_parse(r_tokenise(program, variables_as_digraphs)), dict_compress)"],
-    executor="template", fuel=0, frame_check=False, may_raise=True,
+    executor="template", fuel=0, frame_check=False, may_raise=True, opaque_calls=["tokenise", "parse", "transpile_ast"],
     note="no side path: the text returned for a program is transpile_ast(parse(tokenise(program, digraphs)), dict_compress=dict_compress), whatever the program",
     props=["C05", "C06", "C18", "C02"],
 )
